@@ -339,6 +339,13 @@ def C19.scanBad (c : Ctx) (j : Journal) (fatalHere : Bool) : List String :=
   (if stoppedAtNonMember c.g fc b1 && !fatalHere then ["notingroup-force"] else []) ++
   (if stoppedAtNonMember g2 rc b2 (j.any (isTaintAdd c.view)) && !fatalHere then ["notingroup-reap"] else [])
 
+/-- The only documented way a scan stops the controller is a removal candidate that is not a member of its cloud group.
+    `true` when a scan that ended so has no such candidate (every force / grace candidate of this view is a member). -/
+def notInGroupUnfounded (c : Ctx) : Bool :=
+  let fc := forceCands c.dry c.view.pods (nodesOf c.dry c.st .force c.view.nodes)
+  let rc := reaperCands c.dry c.cfg c.view.pods c.nowMock (nodesOf c.dry c.st .tainted c.view.nodes)
+  (fc ++ rc).all (fun x => belongs c.g x)
+
 end Spec
 end Esc
 
@@ -605,6 +612,26 @@ def C06.tooFewBad (c : Ctx) (paired : List (Entry × Resp)) : List String :=
           ["tainted " ++ toString adds ++ " (+" ++ toString already ++ " found tainted already) of the " ++ toString want ++
            " nodes the band requires, and never tried " ++ toString (untried.map (·.name))]
         else []
+
+/-- "Above the scale-up threshold it only adds capacity": no removal call for an ordinarily tainted node of this view
+    (the force-removal reaper runs in every scan and is not meant). -/
+def C06.upRemovalBad (c : Ctx) (j : Journal) : List String :=
+  let unt := nodesOf c.dry c.st .untainted c.view.nodes
+  let tainted := nodesOf c.dry c.st .tainted c.view.nodes
+  let n : Int := c.view.nodes.length
+  if c.dry || lockHeld c.st.lock c.cfg.coolNs c.nowReal || n < c.st.minEff || n > c.st.maxEff ||
+     (unt.length : Int) < c.st.minEff then []
+  else
+    match exactUtil c with
+    | none => []
+    | some u =>
+      if clearlyAbove u c.cfg.scaleUp then
+        let gone := j.filterMap (fun e => match e.call with
+          | .deleteNode nm => if tainted.any (fun x => x.name == nm) then some nm else none
+          | .terminateInAsg id _ => (tainted.find? (fun x => instanceIdOfProviderId x.providerID == id)).map (·.name)
+          | _ => none)
+        if gone.isEmpty then [] else ["removal of tainted nodes " ++ toString gone.eraseDups ++ " in a scan above the scale-up threshold"]
+      else []
 
 /-- The decision itself (the delta the scan settles on), in every mode including dry mode, against the
     exact utilisation over the untainted uncordoned nodes: −fast / −slow / 0 / positive by band. Judged when
